@@ -25,7 +25,7 @@ type c12Case struct {
 	Via  string `json:"via"` // resolve: ResolveRefWithBase with that base; expand: the $ref sits in a document at Base imported by another root
 }
 
-var c12Segs = []string{"a", "b.json", ".", "..", "c%20d", "é", "x.y", "%41", "e%25f"}
+var c12Segs = []string{"a", "b.json", ".", "..", "c%20d", "é", "x.y", "%41", "e%25f", "..a", "..."} // ("..a" and "..." are ordinary names)
 var c12Bases = []string{"file:///r.json", "file:///d1/r.json", "file:///d1/d2/r.json", "http://h.example/d1/r.json", "https://h.example:8443/r.json", "http://h.example/r.json", "file:///d1/models/pet", "http://h.example/d1/api"}
 
 const c12Root = "file:///zz/top/root.json"
